@@ -220,6 +220,40 @@ pub fn handle(op: &str, req: &Value) -> Option<Value> {
             let _ = std::fs::remove_dir_all(&dir);
             json!({"memory_log": mem_log, "recovered_log": rec, "differs": rec != mem_log, "response": resp})
         },
+        "raft_leader_accepts" => {
+            // single-node cluster with a WAL: the node elects itself, accepts a proposal, and the log is rebuilt from the file alone
+            use tensor_chain::raft_wal::{RaftRecoveryState, RaftWal};
+            let dir = std::env::var("VERIF_BUILD").unwrap_or_else(|_| "/verif/.build".into());
+            let dir = std::path::PathBuf::from(dir).join("replay-tmp").join(format!("p{}-{}", std::process::id(),
+                std::time::SystemTime::now().duration_since(std::time::UNIX_EPOCH).map(|d| d.as_nanos()).unwrap_or(0)));
+            let _ = std::fs::create_dir_all(&dir);
+            let wal_path = dir.join("n1.wal");
+            let t: Arc<MemoryTransport> = Arc::new(MemoryTransport::new("n1".to_string()));
+            let mut cfg = RaftConfig::default();
+            cfg.enable_fast_path = false;
+            cfg.auto_heartbeat = false;
+            let (mem_log, result, role_now);
+            {
+                let node = match RaftNode::with_wal("n1".to_string(), vec![], t, cfg, &wal_path) { Ok(n) => n, Err(e) => return Some(json!({"error": e.to_string()})) };
+                node.start_election();
+                node.become_leader();
+                role_now = role(node.state());
+                // pre-log: earlier proposals of this leader
+                for _ in req["pre_terms"].as_array().into_iter().flatten() {
+                    let _ = node.propose(Block::default());
+                }
+                result = match req["leader_accepts"].as_str().unwrap_or("propose") {
+                    "propose" => node.propose(Block::default()).map_err(|e| e.to_string()),
+                    _ => node.propose_codebook_replace(tensor_chain::codebook::GlobalCodebookSnapshot::new(2, vec![], 7)).map_err(|e| e.to_string()),
+                };
+                mem_log = node.verif_log_and_vote().0;
+            }
+            let rec: Vec<(u64, u64)> = RaftWal::open(&wal_path).ok().and_then(|w| RaftRecoveryState::from_wal(&w).ok()).map(|s| {
+                s.recovered_log.iter().filter_map(|b| bitcode_entry(b)).collect()
+            }).unwrap_or_default();
+            let _ = std::fs::remove_dir_all(&dir);
+            json!({"role": role_now, "result": format!("{result:?}"), "memory_log": mem_log, "recovered_log": rec, "violates": result.is_ok() && rec != mem_log})
+        },
         "raft_node_restart" => {
             // node backed by a real WAL that already holds its (term, vote); one handler call; restart; compare
             use tensor_chain::raft_wal::{RaftRecoveryState, RaftWal, RaftWalEntry};
